@@ -785,3 +785,7 @@ mod tests {
         }
     }
 }
+
+#[cfg(kani)]
+#[path = "/verif/kani/arrow-buffer/builder/boolean.rs"]
+mod verif_kani;
